@@ -7,7 +7,7 @@ import (
 var mutKinds = []string{
 	"blockhash-bit", "other-block", "chainid", "chainid", "nonce", "nonce", "auxindex-low", "auxindex-high", "auxindex-high", "wrong-slot", "wrong-slot",
 	"auxbranch-bit", "auxbranch-drop", "auxbranch-extra", "size", "taller-tree", "marker-absent", "marker-twice", "marker-twice", "marker-gap",
-	"marker-nibble", "prefix-nibble-pattern", "unreversed", "parroot-bit", "parbranch-bit", "parindex-low", "parindex-high", "parpos", "cb-field", "script-bit",
+	"marker-nibble", "prefix-nibble-pattern", "unreversed", "parroot-bit", "parroot-zero-index-allones", "parbranch-bit", "parindex-low", "parindex-high", "parpos", "cb-field", "script-bit",
 }
 
 // Generate: 4..14 honest proofs per run, each followed by 6..30 deliveries
